@@ -4,3 +4,6 @@ use crate::ctx::Ctx;
 pub fn run(cx: &mut Ctx) {
     cx.notes.push("C10: harness not implemented".to_string());
 }
+
+/// finite tables dumped from the running code (translator route); appended to Generated/Tables.lean
+pub fn tables(_out: &mut String) {}
